@@ -16,7 +16,7 @@ use super::AtomicOption;
 use crate::coroutine_impl::{is_coroutine, run_coroutine, CoroutineImpl, EventSource};
 use crate::likely::{likely, unlikely};
 use crate::scheduler::get_scheduler;
-use crate::yield_now::{yield_now, yield_with};
+use crate::yield_now::yield_with;
 
 use may_queue::spsc::Queue;
 
@@ -30,20 +30,24 @@ impl<'a, T> Park<'a, T> {
     fn new(queue: &'a InnerQueue<T>) -> Park<'a, T> {
         Park {
             queue,
-            wait_kernel: AtomicBool::new(true),
+            // only set while `subscribe` runs: a receiver that is already
+            // cancelled never gets there, its drop must not wait for it
+            wait_kernel: AtomicBool::new(false),
         }
     }
 
     fn delay_drop(&self) -> DropGuard<'_, '_, T> {
+        self.wait_kernel.store(true, Ordering::Relaxed);
         DropGuard(self)
     }
 }
 
 impl<T> Drop for Park<'_, T> {
     fn drop(&mut self) {
-        // wait the kernel finish
+        // wait the kernel finish, not a cancellation point: a cancelled receiver
+        // gets here while it unwinds and `yield_now` would not yield for it
         while self.wait_kernel.load(Ordering::Relaxed) {
-            yield_now();
+            crate::park::yield_for_kernel();
         }
     }
 }
